@@ -15,7 +15,7 @@ from .subcommon import ok_validate
 
 CONST_TAPES = [["lo"], ["lo1"], ["hi1"], ["hi"]]
 ITEM_KEYS = [{"k": "str", "s": [97]}, {"k": "str", "s": [98]}, {"k": "int", "n": 1}, {"k": "none"},
-             {"k": "ellipsis"}, {"k": "str", "s": [122]}]
+             {"k": "ellipsis"}, {"k": "str", "s": [122]}, {"k": "obj", "cls": "tuple12", "isa": [], "base": []}]
 
 
 def describe(e):
